@@ -379,7 +379,8 @@ def r15_9(prog: Program, rep: Report):
         atoms = T.derive_atoms(p.guards())
         class_origin = lambda a: T.is_call_to(a, "inspect.isclass") and a[2] and T.is_call_to(a[2][0], "typing.get_origin") and a[2][0][2][:1] == (obj,)  # noqa: E731
         # (known not to be a parameterised user generic: the class-origin test failed, alone or as a conjunct with "has parameters")
-        not_generic_alias = any((not val) and (class_origin(a) or (a[0] == "boolop" and a[1] == "and" and any(class_origin(y) for y in a[2]))) for a, val in atoms)
+        about_params = lambda y: T.contains(y, lambda z: z == ("const", "__parameters__") or (z[0] == "attr" and z[2] == "__parameters__")) and not T.contains(y, lambda z: z[0] == "call" and z[1][0] == "ref" and z[1][1].startswith(C.INSP))  # noqa: E731
+        not_generic_alias = any((not val) and (class_origin(a) or (a[0] == "boolop" and a[1] == "and" and any(class_origin(y) for y in a[2]) and all(class_origin(y) or about_params(y) for y in a[2]))) for a, val in atoms)
         for tm in p.all_terms():
             for x in T.walk(tm):
                 if T.is_call_to(x, f"{C.INSP}.signature", f"{C.INSP}.cached_signature", "inspect.signature") and x[2][:1] == (obj,) and not not_generic_alias:
